@@ -326,4 +326,80 @@ def NarrL.parse (maxLines maxLen : Nat) (input : Text) : Res (List Text) :=
 def F77T.parse (input : Text) : Res Text :=
   if input.isEmpty then .err else if blen input > 9000 then .err else .ok input
 
+/-! ### party fields: option A `[/1!a][/34x]` + BIC (52A–58A), option C `/34x` (52C, 56C, 57C),
+option D `[/1!a][/34x]` + `4*35x` (52D–58D) -/
+
+structure OptA where
+  party : Option Text
+  bic : Text
+  deriving Repr, DecidableEq
+
+/-- 52A, 53A, 54A, 55A, 56A, 57A, 58A: `split('\n')`, optional party-identifier line, BIC, nothing after it. -/
+def OptA.parse (input : Text) : Res OptA :=
+  match splitNl input with
+  | [] => .err
+  | l0 :: rest =>
+    match parsePartyIdentifier l0 with
+    | .err => .err
+    | .panic => .panic
+    | .ok (some p) =>
+      (match rest with
+       | [] => .err
+       | b :: rest' =>
+         match parseBic b with
+         | .ok bic => if rest'.isEmpty then .ok ⟨some p, bic⟩ else .err
+         | .err => .err
+         | .panic => .panic)
+    | .ok none =>
+      match parseBic l0 with
+      | .ok bic => if rest.isEmpty then .ok ⟨none, bic⟩ else .err
+      | .err => .err
+      | .panic => .panic
+def OptA.ser (v : OptA) : Text :=
+  match v.party with
+  | some p => '/' :: p ++ '\n' :: v.bic
+  | none => v.bic
+/-- the JSON form differs per type: 53A/54A/55A keep the slash in the stored identifier, 52A/57A skip a `None` -/
+def partyJson (slash skipNone : Bool) (p : Option Text) : List (String × J) :=
+  match p with
+  | some t => [("party_identifier", .str (if slash then '/' :: t else t))]
+  | none => if skipNone then [] else [("party_identifier", .null)]
+def OptA.json (slash skipNone : Bool) (v : OptA) : J := .obj (partyJson slash skipNone v.party ++ [("bic", .str v.bic)])
+
+/-- 52C, 56C, 57C: `/` + 1..34 x-characters -/
+def OptC.parse (input : Text) : Res Text :=
+  match input with
+  | '/' :: id => if id.isEmpty || blen id > 34 then .err else if id.all isSwiftX then .ok id else .err
+  | _ => .err
+def OptC.ser (id : Text) : Text := '/' :: id
+
+structure OptD where
+  party : Option Text
+  lines : List Text
+  deriving Repr, DecidableEq
+
+/-- 56D, 57D, 58D (and 52D–55D, which read the party identifier the same way after the fixes) -/
+def OptD.parse (input : Text) : Res OptD :=
+  match splitNl input with
+  | [] => .err
+  | l0 :: rest =>
+    match parsePartyIdentifier l0 with
+    | .err => .err
+    | .panic => .panic
+    | .ok (some p) =>
+      (match parseNameAndAddress (l0 :: rest) 1 with
+       | .ok ls => .ok ⟨some p, ls⟩
+       | .err => .err
+       | .panic => .panic)
+    | .ok none =>
+      match parseNameAndAddress (l0 :: rest) 0 with
+      | .ok ls => .ok ⟨none, ls⟩
+      | .err => .err
+      | .panic => .panic
+def OptD.ser (v : OptD) : Text :=
+  match v.party with
+  | some p => joinNl (('/' :: p) :: v.lines)
+  | none => joinNl v.lines
+def OptD.json (slash skipNone : Bool) (v : OptD) : J := .obj (partyJson slash skipNone v.party ++ [("name_and_address", J.lines v.lines)])
+
 end SwiftMT.Fields
